@@ -8,6 +8,7 @@ from .. import compile_common as CC
 
 ID = "C05"
 PROPS_FILE = "Props/C05.v"
+PROPS_EXTRA = ["Props/C05sym.v"]
 GEN_DEPS = ["GenUnits"]
 ALLOWED_AXIOMS: List[str] = []
 THEOREMS = {
@@ -16,8 +17,7 @@ THEOREMS = {
     "C05_conservation_inst": "full",
     "C05_conservation_resolve": "full",
     "C05_example_accepted": "example",
-    # C05_nodes_exactly_once (occurrence count outside references; deleted roots = folded definitions): NOT proved,
-    # stated in a comment of Props/C05.v; covered by the oracle + correspondence only.
+    "C05_nodes_exactly_once": "full",
 }
 TRUSTED = [
     "Coq 8.16.1 kernel (coqc; vm_compute for correspondence only)",
